@@ -46,6 +46,29 @@ def rand_request(rng, d, over=False):
     return params, nums
 
 
+TOL_PROBES = [F(2, 10 ** 7), F(1, 10 ** 6), F(1, 10 ** 5), F(3, 10 ** 5)]   # all clearly above find_multiplicity's 1e-7
+
+
+def probe_request(rng, d):
+    """an insertion parameter at a small distance (above the multiplicity tolerance) from an existing
+    interior knot: it must be treated as a NEW knot (multiplicity 0), up to p copies are admissible"""
+    nd = len(S.dirs(d))
+    for i in rng.sample(range(nd), nd):
+        p, kv, n = S.dirs(d)[i]
+        interior = sorted(set(kv[p + 1:n]))
+        if not interior:
+            continue
+        t = rng.choice(interior)
+        u = t + rng.choice([-1, 1]) * rng.choice(TOL_PROBES)
+        if not (kv[p] < u < kv[n]) or u in kv:
+            continue
+        prm = [None] * nd; prm[i] = u
+        nums = [0] * nd; nums[i] = rng.randint(1, p)
+        G.count('ins_param', 'tol-probe')
+        return prm, nums
+    return None
+
+
 def _shape(rng):
     r = rng.random()
     if r < .45:
@@ -65,7 +88,10 @@ def gen(rng, tier):
     for _ in range(n):
         d = _shape(rng)
         r = rng.random()
-        if r < .55:
+        pr = probe_request(rng, d) if r < .12 else None
+        if pr is not None:
+            reqs = [pr]; kind = 'ins-op'
+        elif r < .55:
             reqs = [rand_request(rng, d)]; kind = 'ins-op'
         elif r < .75:
             reqs = [rand_request(rng, d)]; kind = 'ins-method'
